@@ -70,6 +70,17 @@ fn add_small(a: [u64; 4], k: u64) -> [u64; 4] {
     }
     o
 }
+fn add4(a: [u64; 4], b: [u64; 4]) -> ([u64; 4], bool) {
+    let mut o = [0u64; 4];
+    let mut c = 0u64;
+    for i in 0..4 {
+        let (v, o1) = a[i].overflowing_add(b[i]);
+        let (v2, o2) = v.overflowing_add(c);
+        o[i] = v2;
+        c = (o1 as u64) + (o2 as u64);
+    }
+    (o, c != 0)
+}
 fn sub_small(a: [u64; 4], k: u64) -> [u64; 4] {
     let mut o = a;
     let mut b = k;
@@ -136,7 +147,51 @@ fn scalars() -> Vec<Scalar> {
         l[3] = 0x7400_0000_0000_0000 | (l[3] & 0x03ff_ffff_ffff_ffff);
         push(l, &format!("rand_ge_r{}", i));
     }
+    // scalars >= r that make an addition inside a double-and-add loop hit its equal-operands
+    // (doubling) or opposite-operands (identity) branch: [r+2]P ends with P + P, and so on
+    push(add_small(R, 2), "r+2");
+    push(add_small(R, 3), "r+3");
     // 256-bit scalars (plain and table-driven paths only)
+    let (r2, _) = add4(R, R);
+    push(sub_small(r2, 1), "2r-1");
+    push(r2, "2r");
+    push(add_small(r2, 1), "2r+1");
+    push(add_small(r2, 2), "2r+2");
+    // last-step collisions of the table-driven paths: the accumulator 2A equals the table entry
+    // C(b) selected by the scalar's own lowest column, i.e. k = 2*C(b) + m*r with column(k) = b
+    for (name, stride, ncols) in [("tbl256", 32usize, 8usize), ("tbl3", 64usize, 4usize)] {
+        for b in 1usize..(1 << ncols) {
+            let mut c = [0u64; 4];
+            for j in 0..ncols {
+                if (b >> j) & 1 == 1 {
+                    let bit = j * stride;
+                    c[bit / 64] |= 1 << (bit % 64);
+                }
+            }
+            let (c2, o1) = add4(c, c);
+            if o1 {
+                continue;
+            }
+            let mut k = c2;
+            for m in 0..3 {
+                if m > 0 {
+                    let (nk, o) = add4(k, R);
+                    if o {
+                        break;
+                    }
+                    k = nk;
+                }
+                let mut col = 0usize;
+                for j in 0..ncols {
+                    let bit = j * stride;
+                    col |= (((k[bit / 64] >> (bit % 64)) & 1) as usize) << j;
+                }
+                if col == b && m > 0 {
+                    push(k, &format!("{}_collision_b{}_m{}", name, b, m));
+                }
+            }
+        }
+    }
     push(bit(255), "bit255");
     push([u64::MAX; 4], "2^256-1");
     push(bits(&[255, 254, 0]), "bits255+254+0");
